@@ -192,7 +192,8 @@ Definition finished_meaning (rest : list logent) (o : tobs) : Prop :=
     (o_self o = false -> end_meaning bo e (o_ret o)) /\
     (bo = BPanic -> ret_nil (o_ret o) = false) /\
     (o_ret o = ONever -> bo = BGoexit) /\
-    (ret_nil (o_ret o) = true -> ecall e = CCommit /\ eout e = OOk).
+    (ret_nil (o_ret o) = true -> ecall e = CCommit /\ eout e = OOk) /\
+    (o_ret o = OPanicked -> eout e = OPanic).
 
 Definition open_meaning (rest : list logent) (o : tobs) : Prop :=
   o_body o = None /\
@@ -236,17 +237,19 @@ Proof.
   intros rest o H. unfold finished_ok in H.
   destruct (split_last rest) as [[mid e]|] eqn:Es; [|discriminate].
   destruct (o_body o) as [bo|] eqn:Eb; [|discriminate].
+  apply andb_true_iff in H. destruct H as [H H7].
   apply andb_true_iff in H. destruct H as [H H6]. apply andb_true_iff in H. destruct H as [H H5].
   apply andb_true_iff in H. destruct H as [H H4]. apply andb_true_iff in H. destruct H as [H H3].
   apply andb_true_iff in H. destruct H as [H1 H2].
   exists mid, e, bo. split; [apply split_last_some; exact Es|]. split; [exact Eb|].
-  split; [apply forallb_Forall; exact H1|]. split; [exact H2|]. split; [|split; [|split]].
+  split; [apply forallb_Forall; exact H1|]. split; [exact H2|]. split; [|split; [|split; [|split]]].
   - intros Hs. rewrite Hs in H3. cbn in H3. apply end_ok_meaning; assumption.
   - intros ->. apply negb_true_iff in H4. exact H4.
   - intros Hr. rewrite Hr in H5. destruct bo; try discriminate; reflexivity.
   - intros Hr. rewrite Hr in H6. apply andb_true_iff in H6. destruct H6 as [Ha Hb]. split.
     + destruct (ecall e); try discriminate; reflexivity.
     + destruct (eout e); try discriminate; reflexivity.
+  - intros Hr. rewrite Hr in H7. destruct (eout e); try discriminate; reflexivity.
 Qed.
 
 Lemma open_ok_meaning : forall rest o, open_ok rest o = true -> open_meaning rest o.
